@@ -182,7 +182,8 @@ impl Scenario for S4 {
                 len = len.min(budget);
                 Op::new(t32, kind, &[("len", len as u128), ("dseed", st.data.next() as u128), ("align", st.place.below(64) as u128)])
             }
-            "finres" => Op::new(t32, "finres", &[("fixed", r.below(2) as u128)]),
+            "finres" => Op::new(t32, "finres", &[("fixed", r.below(4) as u128)]),
+            "final" => Op::new(t32, "final", &[("how", r.below(3) as u128)]),
             "jump" => {
                 let (k, _) = super::s6_counters::pick_k(r, t.ty);
                 Op::new(t32, "jump", &[("blocks", k)])
@@ -455,17 +456,31 @@ fn step_inner(w: &mut World, ti: usize, op: &Op, stats: &mut Stats, rh: &mut u64
             Step::Done
         }
         "finres" => {
-            let fixed = op.get("fixed") != 0;
-            stats.hit(if fixed { "op.finalize_fixed_reset" } else { "op.finalize_reset" });
+            let fixed = op.get("fixed") % 4;
+            const FR: [&str; 4] = ["finalize_reset", "finalize_fixed_reset", "finalize_into_reset", "finalize_into_dirty+reset"];
+            stats.hit(&format!("op.{}", FR[fixed as usize]));
             let t = &mut w.tasks[ti];
             let fc = fill_class(t);
             finalize_probes(t, stats);
-            let got = match guarded(|| if fixed { t.real.as_mut().unwrap().finalize_fixed_reset() } else { t.real.as_mut().unwrap().finalize_reset() }) {
+            let outlen = TYPES[t.ty].out;
+            let got = match guarded(|| {
+                let h = t.real.as_mut().unwrap();
+                match fixed {
+                    0 => h.finalize_reset(),
+                    1 => h.finalize_fixed_reset(),
+                    2 => {
+                        let mut o = vec![0u8; outlen];
+                        h.finalize_into_reset_at(&mut o);
+                        o
+                    }
+                    _ => h.finalize_dirty_then_reset(),
+                }
+            }) {
                 Ok(g) => g,
                 Err(m) => return panic_verdict(t, &[], "finalize_reset", m, stats),
             };
             *rh = hash_bytes(&got);
-            if let Some(v) = check_digest(t, &got, if fixed { "finalize_fixed_reset" } else { "finalize_reset" }, stats) {
+            if let Some(v) = check_digest(t, &got, FR[fixed as usize], stats) {
                 return Step::Fail(v);
             }
             if t.reused {
@@ -482,12 +497,22 @@ fn step_inner(w: &mut World, ti: usize, op: &Op, stats: &mut Stats, rh: &mut u64
             Step::Done
         }
         "final" => {
-            stats.hit("op.finalize");
+            let how = op.get("how") % 3;
+            stats.hit(["op.finalize", "op.finalize_fixed", "op.finalize_into"][how as usize]);
             let t = &mut w.tasks[ti];
             let fc = fill_class(t);
             finalize_probes(t, stats);
             let real = t.real.take().unwrap();
-            let got = match guarded(|| real.finalize_box()) {
+            let outlen = TYPES[t.ty].out;
+            let got = match guarded(|| match how {
+                0 => real.finalize_box(),
+                1 => real.finalize_fixed_box(),
+                _ => {
+                    let mut o = vec![0u8; outlen];
+                    real.finalize_into_at(&mut o);
+                    o
+                }
+            }) {
                 Ok(g) => g,
                 Err(m) => return panic_verdict(t, &[], "finalize", m, stats),
             };
